@@ -1,6 +1,6 @@
 (** C07 - derived fields are read from exactly their effective key. *)
-From Deserr Require Import Base Pointer Kinds Value Scalars Types Derive.
-From Deserr.proofs Require Import DeriveProofs.
+From Deserr Require Import Base Pointer Kinds Value Scalars Types Prog Deser Derive Spec Monitors.
+From Deserr.proofs Require Import DeriveProofs RefineFields FieldsSpec.
 Local Open Scope string_scope.
 
 (** The match arms generated for a struct (or a struct-like variant) are, position by position,
@@ -56,6 +56,63 @@ Example c07_skipped_in_the_middle :
   end.
 Proof. vm_compute. reflexivity. Qed.
 
+(** At the level of the specification (which the interpreter refines, C02): with distinct
+    effective keys and distinct payload keys, the value a field ends with is the result of the one
+    member carrying exactly its effective key - whatever the other members are - and its default
+    when no member carries that key. *)
+Theorem c07_field_filled_from_own_key : forall fs d l i f ms,
+  NoDup (map sp_key fs) -> NoDup (map fst ms) -> nth_error fs i = Some f ->
+  s_field_value i f (map (s_member fs d l) ms)
+  = match lookup_key (sp_key f) ms with
+    | Some v => Some (s_out (snd (s_member fs d l (sp_key f, v))))
+    | None => match sp_default f with FDValue o => Some (Some o) | FDMissing => None end
+    end.
+Proof. exact field_filled_from_own_key. Qed.
+
+(** ... and that member is read with the specification of the field's own type, at the location of
+    its key, followed by the field's own conversion *)
+Theorem c07_own_member_result : forall fs d l i f v,
+  NoDup (map sp_key fs) -> nth_error fs i = Some f ->
+  s_member fs d l (sp_key f, v)
+  = (Some i,
+     let r := sp_run f v (Key (sp_key f) l) in
+     match s_out r with
+     | None => r
+     | Some x =>
+       match sp_from f with
+       | FFNone => r
+       | FFFrom fn => mkS (Some (OFn fn x)) [] (s_ucalls r ++ [(fn, [AOut x])])
+       | FFTry fn =>
+         if ufail x then mkS None [FUser (fn, [AOut x]) (Key (sp_key f) l)] (s_ucalls r ++ [(fn, [AOut x])])
+         else mkS (Some (OFn fn x)) [] (s_ucalls r ++ [(fn, [AOut x])])
+       end
+     end).
+Proof. exact own_member_result. Qed.
+
+Check c07_field_filled_from_own_key : forall fs d l i f ms,
+  NoDup (map sp_key fs) -> NoDup (map fst ms) -> nth_error fs i = Some f ->
+  s_field_value i f (map (s_member fs d l) ms)
+  = match lookup_key (sp_key f) ms with
+    | Some v => Some (s_out (snd (s_member fs d l (sp_key f, v))))
+    | None => match sp_default f with FDValue o => Some (Some o) | FDMissing => None end
+    end.
+Check c07_own_member_result : forall fs d l i f v,
+  NoDup (map sp_key fs) -> nth_error fs i = Some f ->
+  s_member fs d l (sp_key f, v)
+  = (Some i,
+     let r := sp_run f v (Key (sp_key f) l) in
+     match s_out r with
+     | None => r
+     | Some x =>
+       match sp_from f with
+       | FFNone => r
+       | FFFrom fn => mkS (Some (OFn fn x)) [] (s_ucalls r ++ [(fn, [AOut x])])
+       | FFTry fn =>
+         if ufail x then mkS None [FUser (fn, [AOut x]) (Key (sp_key f) l)] (s_ucalls r ++ [(fn, [AOut x])])
+         else mkS (Some (OFn fn x)) [] (s_ucalls r ++ [(fn, [AOut x])])
+       end
+     end).
+
 Check c07_pairing : forall fs ra v,
   named_vectors fs ra = Accept v ->
   exists extra,
@@ -81,3 +138,5 @@ Check c07_effective_key : forall ident ra name,
 Print Assumptions c07_pairing.
 Print Assumptions c07_variant_scope.
 Print Assumptions c07_effective_key.
+Print Assumptions c07_field_filled_from_own_key.
+Print Assumptions c07_own_member_result.
